@@ -22,6 +22,9 @@ EXPLANATION = (
     "(a one-sided abs() clamp sends -1.0000000000000002, which too-small radii produce, to +1: the half turn becomes no arc). Not "
     "decided: that sampled points satisfy the ellipse equation numerically; behaviour at exactly half a turn."
 )
+TECHNIQUE = (
+    "static analysis (no execution): guard-selected straight-line statements folded into exact canonical forms for all 16 (radii small?, fA=fS?, cross<0?, fS?) cells and compared with SVG F.6.5/F.6.6; clamp shape check; degenerate branches of the evaluators"
+)
 ASSUMPTIONS = [
     "SVG 1.1 Appendix F.6.5/F.6.6 transcribed in this module is the oracle.",
     "cos/sin/sqrt/acos/degrees/abs are opaque: agreement is on the formulas, not on floating-point values.",
